@@ -1398,7 +1398,7 @@ pub fn astrategy(_tier: Tier) -> BoxedStrategy<ACase> {
         proptest::collection::vec(any::<u8>(), 0..4),
     )
         .prop_map(|((n, ring, mut cfgs, sched), (blob, len_sel, len_off, len_abs), origin, holders, provider, provider_first, drop_order)| {
-            if EXCLUDE_ABANDONED_FETCH_PARKED_QUEUE_SLOT && holders.iter().any(|h| leaves_abandoned_fetch(&h.script)) {
+            if EXCLUDE_ABANDONED_FETCH_PARKED_QUEUE_SLOT && may_leave_parked_fetch(blob, &holders) {
                 for c in cfgs.iter_mut() {
                     c.shared_q = 16;
                 }
@@ -1436,6 +1436,20 @@ pub fn astrategy(_tier: Tier) -> BoxedStrategy<ACase> {
 
 /// True when the script can end with a started, abandoned fetch that is neither resumed (get /
 /// into_inner) nor released (drop) by the same holder afterwards.
+/// True when an abandoned fetch can stay parked in a lazy object to the end of the case: a holder
+/// whose own script leaves it unresolved, or any abandonment at all when some holder is a local
+/// twin (a clone kept on the same endpoint shares the fetch cache, so the parked future lives on
+/// in the twin even after the abandoning holder has dropped its own object).
+fn may_leave_parked_fetch(blob: bool, holders: &[AHolder]) -> bool {
+    if holders.iter().any(|h| leaves_abandoned_fetch(&h.script)) {
+        return true;
+    }
+    let (_, routes) = resolve_holders(blob, holders);
+    let any_twin = routes.iter().enumerate().any(|(i, r)| i > 0 && r.is_empty());
+    let any_abandon = holders.iter().any(|h| h.script.iter().any(|s| matches!(s, AStep::GetCancel { polls } if *polls > 0)));
+    any_twin && any_abandon
+}
+
 fn leaves_abandoned_fetch(script: &[AStep]) -> bool {
     let mut parked = false;
     for s in script {
@@ -1891,7 +1905,7 @@ async fn execute_abandon(case: &ACase) -> AOut {
                     // excludes: a holder that leaves an abandoned fetch unresolved on a network with a
                     // small shared event queue. Its signature says so; anywhere else a blocked fetch
                     // is a violation of its own.
-                    let parked_slot = case.holders.iter().any(|h| leaves_abandoned_fetch(&h.script)) && case.cfgs.iter().any(|c| c.shared_q < 16);
+                    let parked_slot = may_leave_parked_fetch(case.blob, &case.holders) && case.cfgs.iter().any(|c| c.shared_q < 16);
                     let sig = if (after_abandon || own_abandon) && parked_slot {
                         "C20/lazy-fetch-blocked-after-abandon/parked-queue-slot"
                     } else if after_abandon || own_abandon {
